@@ -11,6 +11,7 @@ import (
 
 const maxInlineDepth = 4
 const maxInlineInstrs = 220
+const maxInlineTotal = 2500
 
 func normName(full string) string {
 	// "(*github.com/pion/dtls/v3/internal/flight.Cache).PullAndMerge" -> "flight.Cache.PullAndMerge"
@@ -177,12 +178,23 @@ func (f *frame) doCall(c *ssa.CallCommon, pos token.Pos, site ssa.Instruction) [
 		f.noteEvent("call", callee, args, rs)
 		return rs
 	}
-	if ct := vc.P.contractFor(callee); ct != nil && !(f.top && false) {
+	if ct := vc.P.contractFor(callee); ct != nil && ct.NoInline && ct.onlyLoops() {
+		// summarised by its inferred write set only; verified on its own
+		rs := f.havocCall(callee, sig, c.Args, false)
+		f.noteEvent("call", callee, args, rs)
+		return rs
+	}
+	if ct := vc.P.contractFor(callee); ct != nil && ct.Inline {
+		f.checkPre(callee, ct, args, pos)
+		rs := f.inline(callee, c.Args, nil, pos)
+		f.noteEvent("call", callee, args, rs)
+		return rs
+	} else if ct != nil && !ct.onlyLoops() {
 		rs := f.contractCall(callee, ct, c, args, pos)
 		f.noteEvent("call", callee, args, rs)
 		return rs
 	}
-	if vc.P.inRepo(callee) && f.canInline(callee) {
+	if (vc.P.inRepo(callee) || inlineLib(callee)) && f.canInline(callee) {
 		rs := f.inline(callee, c.Args, nil, pos)
 		f.noteEvent("call", callee, args, rs)
 		return rs
@@ -190,6 +202,23 @@ func (f *frame) doCall(c *ssa.CallCommon, pos token.Pos, site ssa.Instruction) [
 	rs := f.havocCall(callee, sig, c.Args, false)
 	f.noteEvent("call", callee, args, rs)
 	return rs
+}
+
+// inlineLib: library functions whose real source is translated in place (no assumed contract).
+func inlineLib(fn *ssa.Function) bool {
+	p := pkgOf(fn)
+	if p == nil {
+		return false
+	}
+	switch p.Pkg.Path() {
+	case "golang.org/x/crypto/cryptobyte":
+		return true
+	case "encoding/binary":
+		return strings.HasPrefix(fn.Name(), "AppendUint")
+	case "slices":
+		return false
+	}
+	return false
 }
 
 func (f *frame) canInline(fn *ssa.Function) bool {
@@ -206,15 +235,21 @@ func (f *frame) canInline(fn *ssa.Function) bool {
 	}
 	n := 0
 	for _, b := range fn.Blocks {
-		n += len(b.Instrs)
 		for _, in := range b.Instrs {
 			switch in.(type) {
 			case *ssa.Go, *ssa.Select:
 				return false
+			case *ssa.DebugRef:
+			default:
+				n++
 			}
 		}
 	}
-	return n <= maxInlineInstrs
+	if n > maxInlineInstrs || f.vc.inlineBudget+n > maxInlineTotal {
+		return false
+	}
+	f.vc.inlineBudget += n
+	return true
 }
 
 // inline translates the callee body in place.
